@@ -72,7 +72,7 @@ def standard_scenario(src, cfg, nmembers, event_times, quiet=3.0, fault_apis=(),
     ev = evs[src.choice("event", len(evs))]
     plan["event"] = ev
     if ev != "none":
-        plan["victim"] = ["A", "B", "C"][src.choice("victim", nmembers)] if ev in ("stop", "crash") else "A"
+        plan["victim"] = ["A", "B", "C"][src.choice("victim", nmembers)] if ev in ("stop", "crash", "pause_poll") else "A"
         plan["event_at"] = event_times[src.choice("event_at", len(event_times))] + 0.02
     plan["listener_delay"] = [0.0, 0.15][src.choice("listener_delay", 2)]
     # slow SyncGroup replies (a metadata refresh or another event can land while it is in flight)
@@ -141,6 +141,10 @@ def standard_scenario(src, cfg, nmembers, event_times, quiet=3.0, fault_apis=(),
             elif what == "crash":
                 if m.consumer is not None and m.alive:
                     m.crash()
+            elif what == "pause_poll":
+                # the application stops polling for longer than max.poll.interval: the member leaves the group
+                if m.consumer is not None and m.alive:
+                    m.pause_polling(cfg.get("pause_for", 0.7))
             elif what == "grow":
                 # the topic gets one more partition (clients notice at their next metadata refresh)
                 n = run.cluster.topics["t"]
@@ -240,6 +244,20 @@ def check_c05(src, run, res):
             t, topic, p, off, revoking, epoch = d
             src.check(TopicPartition(topic, p) not in revoking,
                       f"member {name} delivered a record of {topic}-{p} after on_partitions_revoked began", offset=off, plan=_plan(run))
+    # (b') a member that left the group (LeaveGroup accepted by the coordinator, e.g. after max.poll.interval
+    #      without a poll) delivers nothing until it has been given partitions again
+    for name, m in run.members.items():
+        leaves = sorted(e[0] for e in run.cluster.group_events if e[2] == "leave" and owner_of.get(e[3]) == name)
+        assigns = sorted(e[0] for e in m.events if e[1] == "assign_start")
+        for d in m.deliveries:
+            t = d[0]
+            before = [x for x in leaves if x < t - 1e-9]
+            if not before:
+                continue
+            tl = before[-1]
+            ok = any(tl < a <= t + 1e-9 for a in assigns)
+            src.check(ok, f"member {name} delivered a record of {d[1]}-{d[2]} after it had left the group (LeaveGroup at {tl:.3f}) "
+                      "and before it was assigned partitions again", offset=d[3], at=round(t, 3), plan=_plan(run))
     # (c) all revoke callbacks of a rebalance finish before any assign callback of the resulting generation
     for i, (ts, gen) in enumerate(stable_times):
         nxt = stable_times[i + 1][0] if i + 1 < len(stable_times) else float("inf")
